@@ -57,6 +57,36 @@ fn exec(op: &str, n: u64, d: Duration, x: f64, p: i64) -> Map<String, Value> {
         }
         _ => {}
     }
+    // the same value once more after a write that failed part-way: a writer that accepts only the first `cap` bytes (the output depends on the value only)
+    struct Limited { left: usize }
+    impl std::fmt::Write for Limited { fn write_str(&mut self, s: &str) -> std::fmt::Result { if s.len() > self.left { self.left = 0; Err(std::fmt::Error) } else { self.left -= s.len(); Ok(()) } } }
+    let partial = |cap: usize| -> String {
+        use std::fmt::Write as _;
+        let mut w = Limited { left: cap };
+        let r = catch_unwind(AssertUnwindSafe(|| match op {
+            "hc" => write!(w, "{}", HumanCount(n)),
+            "hb" => write!(w, "{}", HumanBytes(n)),
+            "bb" => write!(w, "{}", BinaryBytes(n)),
+            "db" => write!(w, "{}", DecimalBytes(n)),
+            "fd" => write!(w, "{}", FormattedDuration(d)),
+            "hd" => write!(w, "{}", HumanDuration(d)),
+            "hda" => write!(w, "{:#}", HumanDuration(d)),
+            "hf" => if p < 0 { write!(w, "{}", HumanFloatCount(x)) } else { write!(w, "{:.*}", p as usize, HumanFloatCount(x)) },
+            _ => Ok(()),
+        }));
+        match r { Ok(Ok(())) => "ok".into(), Ok(Err(_)) => "err".into(), Err(e) => format!("panic: {}", panic_msg(e)) }
+    };
+    let render = || catch_unwind(AssertUnwindSafe(|| match op {
+        "hc" => format!("{}", HumanCount(n)),
+        "hb" => format!("{}", HumanBytes(n)),
+        "bb" => format!("{}", BinaryBytes(n)),
+        "db" => format!("{}", DecimalBytes(n)),
+        "fd" => format!("{}", FormattedDuration(d)),
+        "hd" => format!("{}", HumanDuration(d)),
+        "hda" => format!("{:#}", HumanDuration(d)),
+        "hf" => if p < 0 { format!("{}", HumanFloatCount(x)) } else { format!("{:.*}", p as usize, HumanFloatCount(x)) },
+        _ => String::new(),
+    }));
     let r = catch_unwind(AssertUnwindSafe(|| match op {
         "hc" => format!("{}", HumanCount(n)),
         "hb" => format!("{}", HumanBytes(n)),
@@ -69,8 +99,14 @@ fn exec(op: &str, n: u64, d: Duration, x: f64, p: i64) -> Map<String, Value> {
         _ => String::new(),
     }));
     match r {
-        Ok(s) => { rec.insert("out".into(), cells(&s)); rec.insert("panic".into(), json!("")); }
-        Err(e) => { rec.insert("out".into(), json!([])); rec.insert("panic".into(), json!(panic_msg(e))); }
+        Ok(s) => {
+            rec.insert("out".into(), cells(&s)); rec.insert("panic".into(), json!(""));
+            // a write that fails after about half of the output, then the value again
+            let pr = partial(s.len() / 2);
+            rec.insert("partial".into(), json!(pr));
+            match render() { Ok(s2) => { rec.insert("again".into(), cells(&s2)); } Err(e) => { rec.insert("again".into(), json!([])); rec.insert("panic".into(), json!(format!("second rendering: {}", panic_msg(e)))); } }
+        }
+        Err(e) => { rec.insert("out".into(), json!([])); rec.insert("again".into(), json!([])); rec.insert("partial".into(), json!("")); rec.insert("panic".into(), json!(panic_msg(e))); }
     }
     rec
 }
